@@ -43,6 +43,7 @@ type params struct {
 	Rounds    int    `json:"rounds"`     // parked scenario: number of parked->push rounds
 	ParkedEnd string `json:"parked_end"` // parked scenario: "close" after the rounds
 	PostErr   int    `json:"post_error"` // error scenario: pushes issued after OnError was seen
+	LateStart bool   `json:"late_start,omitempty"` // nostart scenario: Start is called after Close has returned
 	ErrClose  bool   `json:"err_close,omitempty"` // error scenario: Close is issued while the failing callback is executing
 	Index     int    `json:"index"`      // index of the history in the (seed, tier) case list
 	Attempt   int    `json:"attempt"`    // 0 = first run
